@@ -95,6 +95,9 @@ def parse_vspec(path):
             m = re.match(r'@rename\s+(\S+)\s*=>\s*(\S+)', ln)
             if not m: raise SpecError(f'{path}:{i+1}: bad @rename')
             u.renames.append((m.group(1), m.group(2))); i += 1
+        elif d == '@fxauto':
+            # unit-level switch for R13a: calls of sibling items with the same `fx=` get the effect state automatically
+            u.fxauto = True; i += 1
         elif d == '@spec':
             cur_item = None
             text, j = take_block(i + 1)
@@ -659,7 +662,8 @@ def apply_fx(tx, ct, lo, hi, fxname, fxcalls, inserts, mk, bare=False):
                            'note': f'effect state `{fxname}` passed to the macro model'})
             continue
         # fxbare=1: also plain calls `NAME(ARGS)` of a free fn (never the `fn NAME(` of a definition)
-        if t.kind == 'id' and t.text in fxcalls and ct[k + 1].text == '(' and (ct[k - 1].text in ('.', ':') or (bare and ct[k - 1].text != 'fn')):
+        if t.kind == 'id' and t.text in fxcalls and ct[k + 1].text == '(' and (ct[k - 1].text in ('.', ':') or (bare and ct[k - 1].text != 'fn')) \
+                and not (ct[k - 1].text == '.' and ct[k - 2].kind == 'id' and ct[k - 2].text == fxname):   # the effect state never receives itself
             close = rl.match_close(ct, k + 1)
             empty = close == k + 2
             trailing = ct[close - 1].text == ','
@@ -778,7 +782,8 @@ def apply_tl_accessor_inline(tx, ct, lo, hi, accessor, fxname):
             k = j + 4; continue
         k += 1
     if n_done == 0:
-        raise SpecError(f'LOST-ANCHOR: {tx.rel}: tlin={accessor} given but no {accessor}(|{fxname}| ..) found')
+        # nothing to inline (e.g. the body now delegates to another fx item of the unit): not an error
+        tx.log.append({'rule': 'R27', 'at': tx.rel, 'text': '', 'note': f'tlin={accessor}: no {accessor}(|{fxname}| ..) in this fn'})
 
 
 def apply_tls_inline(tx, ct, lo, hi, fxcalls, inserts, mk):
@@ -1517,7 +1522,14 @@ class Gen:
                     if ct[k].kind == 'id' and ct[k].text == 'await' and ct[k - 1].text == '.' \
                             and not any(s_ <= ct[k].start and ct[k].end <= e_ for (s_, e_, _r) in tx.edits):
                         tx.edit(ct[k].start, ct[k].end, f'await_model({fxname})', 'R24', 'await modelled as a blocking call with an assumed contract')
-            apply_fx(tx, ct, fp['bopen'], body_hi, fxname, it.opts.get('fxcalls', '').split(','), pending_inserts,
+            # R13a (automatic, units with `@fxauto`): calls of the unit's other items that carry the same `fx=` get the effect state
+            # too, so a body that starts delegating to a sibling (after a source change) still type-checks; a method call on the
+            # effect state itself (`k.local_addr(..)`) is never touched (see apply_fx)
+            declared = [x for x in it.opts.get('fxcalls', '').split(',') if x]
+            sibl = [n_ for n_, f_ in (getattr(self, 'fx_items', {}) if getattr(u, 'fxauto', False) else {}).items()
+                    if f_ == it.opts['fx'] and n_ not in [d.rstrip('*') for d in declared]]
+            it_fxcalls = ','.join(declared + sibl)
+            apply_fx(tx, ct, fp['bopen'], body_hi, fxname, it_fxcalls.split(','), pending_inserts,
                      lambda pos, text: (pos, text, 'R13'), bare=bool(it.opts.get('fxbare')))
         if it.opts.get('pollfn'):
             # pollfn=1 (with fx=): R30 on every `poll_fn(|cx| BODY).await` of the fn
@@ -2034,6 +2046,10 @@ class Gen:
         if bnames:
             self.emit('broadcast use {' + ', '.join(bnames) + '};\n')
         self.emit(f'// ===== unit {u.name} =====\n')
+        self.fx_items = {}
+        for part in u.parts:
+            if part[0] == 'item' and part[1].kind == 'fn' and part[1].opts.get('fx'):
+                self.fx_items[re.split(r'::', part[1].sel)[-1].split('#')[0]] = part[1].opts['fx']
         for part in u.parts:
             if part[0] == 'spec':
                 self.emit_spec(part[1], part[2])
